@@ -124,10 +124,13 @@ API_LEVELS = [(0.5, 1.5, 4.0), (6.0, 2.0, -1.0, 3.0), (1.0,), (0.0, 5.0, 2.5)]
 _API_GRID = {}
 
 
-def api_case(rec, ci, li, tkind, suffix, mask, method, layout, chunk, seed):
+def api_case(rec, ci, li, tkind, suffix, mask, method, layout, chunk, seed, prec="f8"):
+    """prec 'mixed': float32 data with float64 target_data and levels scaled by 0.1 (end values that
+    float32 cannot represent: a level exactly on an end value must stay unmasked)"""
     from xgcm import Grid
 
-    case = dict(level="api", ci=ci, li=li, tkind=tkind, suffix=suffix, mask=mask, method=method, layout=layout, chunk=chunk)
+    case = dict(level="api", ci=ci, li=li, tkind=tkind, suffix=suffix, mask=mask, method=method, layout=layout, chunk=chunk, prec=prec)
+    scale = 0.1 if prec == "mixed" else 1.0
     nz = 3
     g = _API_GRID.get("g")
     if g is None:
@@ -139,11 +142,13 @@ def api_case(rec, ci, li, tkind, suffix, mask, method, layout, chunk, seed):
     profs = COLS[ci]
     levels = API_LEVELS[li]
     phi = np.array([[1.0, 2.0, 4.0], [10.0 + seed % 2, -20.0, 40.0]])
-    da = xr.DataArray(phi, dims=["x", "zc"], name="temp")
+    da = xr.DataArray(phi.astype(np.float32) if prec == "mixed" else phi, dims=["x", "zc"], name="temp")
     thv = np.array(profs, dtype=float)
     lvv = np.array(levels, dtype=float)
     if method == "log":
         thv, lvv = 2.0 ** thv, 2.0 ** lvv
+    elif prec == "mixed":
+        thv, lvv = thv * scale, lvv * scale
     td = xr.DataArray(thv, dims=["x", "zc"], name="dens")
     if layout == "zx":
         da, td = da.transpose("zc", "x"), td.transpose("zc", "x")
@@ -193,8 +198,8 @@ def api_case(rec, ci, li, tkind, suffix, mask, method, layout, chunk, seed):
                     return
                 continue
             e = float(sum(float(x) * p for x, p in zip(w, phi[c])))
-            if np.isnan(got[c, k]) or not np.isclose(got[c, k], e, rtol=1e-9, atol=1e-9):
-                cls = "values" + (":decreasing-profile" if profs[c][0] > profs[c][-1] else "") + (":column-mixup" if c == 1 else "")
+            if np.isnan(got[c, k]) or not np.isclose(got[c, k], e, rtol=1e-9 if prec == "f8" else 1e-5, atol=1e-9 if prec == "f8" else 1e-5):
+                cls = "values" + (":mixed-precision" if prec != "f8" else "") + (":masked-on-end-value" if np.isnan(got[c, k]) else "") + (":decreasing-profile" if profs[c][0] > profs[c][-1] else "") + (":column-mixup" if c == 1 else "")
                 rec.violation("api", cls, dict(case, column=c, k=k), e, float(got[c, k]))
                 return
 
@@ -246,7 +251,9 @@ def api_cases(tier):
                         if tier == "quick":
                             variants = [variants[k % 4], variants[(k + 2) % 4]]
                         for suffix, layout, chunk in variants:
-                            out.append((ci, li, tkind, suffix, mask, method, layout, chunk))
+                            out.append((ci, li, tkind, suffix, mask, method, layout, chunk, "f8"))
+                        if method == "linear":
+                            out.append((ci, li, tkind, None, mask, method, "xz", None, "mixed"))
     return out
 
 
@@ -276,7 +283,7 @@ def run_shard(shard, tier, seed, rec):
     elif shard[0] == "api":
         _API_GRID.clear()
         for c in api_cases(tier)[shard[1]: shard[2]]:
-            api_case(rec, *c, seed)
+            api_case(rec, *c[:8], seed, prec=c[8])
     else:
         api_default_td(rec, seed)
 
@@ -288,6 +295,6 @@ def replay_case(case, seed, rec):
         rec.viol = [v for v in rec.viol if v["case"].get("profile") == case["profile"]]
     elif case["level"] == "api":
         _API_GRID.clear()
-        api_case(rec, case["ci"], case["li"], case["tkind"], case["suffix"], case["mask"], case["method"], case["layout"], case["chunk"], seed)
+        api_case(rec, case["ci"], case["li"], case["tkind"], case["suffix"], case["mask"], case["method"], case["layout"], case["chunk"], seed, prec=case.get("prec", "f8"))
     else:
         api_default_td(rec, seed)
